@@ -161,6 +161,21 @@ def deadline_reply_case(rng):
     return " | ".join(secs), meta
 
 
+def fresh_methods_case(rng):
+    """eight connections at once, each sending 60 calls whose method strings nobody has used before (known interface, new method name)"""
+    secs = ["svc 76 70 31 75 -", "iface %s %s" % (S.hx(b"a.b"), S.hx(b"interface a.b\nmethod M() -> ()"))]
+    conns = []
+    tag = rng.randrange(10 ** 6)
+    for ci in range(8):
+        calls = [Call(b"a.b.F%d_%d_%d" % (tag, ci, k), None) for k in range(60)]
+        data = b"".join(S.call_bytes(rng, c.method, None, False, False, False, canonical=True) + b"\x00" for c in calls)
+        conns.append((calls, data))
+        secs.append("conn half %s" % data.hex())
+    meta = dict(registry=[b"a.b"], descrs={S.SVC: svc_descr(), b"a.b": b"interface a.b\nmethod M() -> ()"}, scripts={}, conns=conns,
+                info={"vendor": "v", "product": "p", "version": "1", "url": "u", "interfaces": [S.SVC.decode(), "a.b"]}, comparable=True)
+    return " | ".join(secs), meta
+
+
 def check_conn(meta, calls, cs, ci):
     """Compare one connection's observable with the statement's reading. -> error text or None"""
     out, log, ovl = conn_fields(cs)
